@@ -457,7 +457,7 @@ def solve (L : NLits α) (S : Setup α) (ode jac : Nat → α → Array α → A
         h := hnew
         status := .success; starved := false; break
       singular := 0
-      hnew := clampF (Num.abs hnew) hmin hmax * posneg
+      hnew := Num.fmin (Num.fmax (Num.abs hnew) hmin) hmax * posneg
       if reject then
         hnew := posneg * Num.fmin (Num.abs hnew) (Num.abs h)
         reject := false
